@@ -11,9 +11,9 @@
 (*                                                                         *)
 (* `mode' is a configuration variable (one run sweeps both):               *)
 (*  "fill": every list over the *covering* rule domain (each field alone,  *)
-(*          every wildcard shape, mixed rules; both actions; 42 rules) is  *)
-(*          built once, positions filled in ascending order; all packets   *)
-(*          are judged in every such list by the invariant.                *)
+(*          every wildcard shape, mixed rules up to all five fields; 34    *)
+(*          rules) is built once, positions filled in ascending order; all *)
+(*          packets are judged in every such list by the invariants.       *)
 (*  "free": every interleaving of Add (incl. overwrite) / Remove / Check   *)
 (*          over the *core* rule domain (10 rules).                        *)
 (* Domain = "product" (a 1440-rule product domain, 304 packets) is used    *)
@@ -40,30 +40,40 @@ CoreParts ==
         <<"icmp", AnyN, AnyN, 3, AnyN, AnyN, AnyN>>,
         <<"udp", 1, AnyN, 0, 2, 0, AnyN>>
     }
-CoverParts ==
-    CoreParts \cup
+\* the further match shapes of the covering domain
+ExtraParts ==
     {   \* protocol alone
         <<"tcp", AnyN, AnyN, AnyN, AnyN, AnyN, AnyN>>,
         <<"udp", AnyN, AnyN, AnyN, AnyN, AnyN, AnyN>>,
         <<"icmp", AnyN, AnyN, AnyN, AnyN, AnyN, AnyN>>,
-        \* source alone: exact, exact with zero mask, low-bit range, high-bit (non-contiguous) range, everything
+        \* source alone: exact, exact with zero mask, low-bit ranges, high-bit (non-contiguous) range, everything
         <<AnyP, 1, AnyN, AnyN, AnyN, AnyN, AnyN>>,
+        <<AnyP, 3, AnyN, AnyN, AnyN, AnyN, AnyN>>,
         <<AnyP, 1, 0, AnyN, AnyN, AnyN, AnyN>>,
+        <<AnyP, 0, 1, AnyN, AnyN, AnyN, AnyN>>,
         <<AnyP, 1, 2, AnyN, AnyN, AnyN, AnyN>>,
         <<AnyP, 0, 3, AnyN, AnyN, AnyN, AnyN>>,
         \* destination alone
         <<AnyP, AnyN, AnyN, 3, AnyN, AnyN, AnyN>>,
+        <<AnyP, AnyN, AnyN, 1, 0, AnyN, AnyN>>,
         <<AnyP, AnyN, AnyN, 3, 1, AnyN, AnyN>>,
         <<AnyP, AnyN, AnyN, 0, 2, AnyN, AnyN>>,
-        \* ports alone
+        <<AnyP, AnyN, AnyN, 2, 3, AnyN, AnyN>>,
+        \* ports alone and together
         <<AnyP, AnyN, AnyN, AnyN, AnyN, 0, AnyN>>,
         <<AnyP, AnyN, AnyN, AnyN, AnyN, 80, AnyN>>,
         <<AnyP, AnyN, AnyN, AnyN, AnyN, AnyN, 0>>,
         <<AnyP, AnyN, AnyN, AnyN, AnyN, AnyN, 80>>,
-        \* mixed
+        <<AnyP, AnyN, AnyN, AnyN, AnyN, 0, 80>>,
+        \* mixed, up to all five fields
         <<"udp", AnyN, AnyN, AnyN, AnyN, 80, 80>>,
-        <<"tcp", 1, AnyN, 3, AnyN, AnyN, 80>>
+        <<"icmp", AnyN, AnyN, AnyN, AnyN, AnyN, 80>>,
+        <<"tcp", 1, AnyN, 3, AnyN, AnyN, 80>>,
+        <<"tcp", 1, 0, 3, 1, 80, 0>>,
+        <<"udp", 2, 1, 0, 2, AnyN, AnyN>>
     }
+CoverParts == CoreParts \cup ExtraParts
+
 ProductParts ==
     {AnyP, "tcp", "udp", "icmp"}
     \X {<<AnyN, AnyN>>, <<1, AnyN>>, <<1, 0>>, <<2, 1>>, <<1, 2>>}
@@ -78,7 +88,9 @@ WideParts ==
 
 RulesOf(parts) == {R(a, t[1], t[2], t[3], t[4], t[5], t[6], t[7]) : a \in Acts, t \in parts}
 CoreRules  == RulesOf(CoreParts)
-CoverRules == RulesOf(CoverParts)
+\* Which position decides does not depend on the rules' actions, so the covering domain carries
+\* both actions only for the core shapes and one (deny) for the further shapes.
+CoverRules == CoreRules \cup {R("deny", t[1], t[2], t[3], t[4], t[5], t[6], t[7]) : t \in ExtraParts}
 ProductOf(parts) == {R(a, t[1], t[2][1], t[2][2], t[3][1], t[3][2], t[4], t[5]) : a \in Acts, t \in parts}
 ProductRules == ProductOf(ProductParts)
 WideRules == ProductOf(WideParts)
@@ -164,6 +176,11 @@ View == <<npos, implicit, acl, mode>>
 
 \* in every reachable list, for every packet, the scan finds the deciding rule of the statement
 ScanIsLowestMatch == \A p \in Packets : ScanDecider(p) = Decider(acl, p)
+
+\* ... hence the scan's verdict is the statement's verdict
+ScanVerdictIsVerdict ==
+    \A p \in Packets :
+        LET d == ScanDecider(p) IN (IF d = Implicit THEN implicit ELSE acl[d].action) = Verdict(acl, implicit, p)
 
 \* the declarative Decider read back against the statement's words: it matches, nothing below it
 \* does; none matches when the implicit rule decides ("free" lists only - a cross-check of Acl.tla)
